@@ -4,6 +4,7 @@ package core
 
 import (
 	"context"
+	"strings"
 
 	"github.com/Comcast/sheens/match"
 	"github.com/Comcast/sheens/zzverif/verif"
@@ -57,7 +58,13 @@ func refStep(b *builtSpec, st *State, orig match.Bindings, pending interface{}) 
 		} else {
 			bs = abs
 			if bs == nil {
+				// no bindings returned: empty bindings, which still carry the permanent ones
 				bs = match.NewBindings()
+				for _, k := range verif.Keys(orig) {
+					if strings.HasSuffix(k, "!") {
+						bs[k] = orig[k]
+					}
+				}
 			}
 		}
 	}
